@@ -8,6 +8,7 @@ import (
 	"path/filepath"
 	"strings"
 	"sync"
+	"sync/atomic"
 	"time"
 )
 
@@ -31,11 +32,30 @@ func joinIdx(v []uint64) string {
 	return strings.Join(parts, ",")
 }
 
-func preludeArgs(seed uint64, prelude []uint64) []string {
-	if len(prelude) == 0 {
-		return nil
+// preludeValue renders a list of run indices for the -prelude flag.  A long list (a worker had
+// executed hundreds of thousands of runs before the violating one) does not fit a command-line
+// argument (Linux: 128 KiB per string), so it goes into a file and the flag says "@<file>";
+// cleanup removes that file.
+var preludeFileSeq atomic.Uint64
+
+func preludeValue(prelude []uint64) (val string, cleanup func()) {
+	val = joinIdx(prelude)
+	if len(val) < 60000 {
+		return val, func() {}
 	}
-	return []string{"-seed", fmt.Sprint(seed), "-prelude", joinIdx(prelude)}
+	name := filepath.Join(os.TempDir(), fmt.Sprintf("simcheck-prelude-%d-%d.txt", os.Getpid(), preludeFileSeq.Add(1)))
+	if err := os.WriteFile(name, []byte(val), 0o644); err != nil {
+		infraFatal("prelude file: %v", err)
+	}
+	return "@" + name, func() { os.Remove(name) }
+}
+
+func preludeArgs(seed uint64, prelude []uint64) (args []string, cleanup func()) {
+	if len(prelude) == 0 {
+		return nil, func() {}
+	}
+	v, cl := preludeValue(prelude)
+	return []string{"-seed", fmt.Sprint(seed), "-prelude", v}, cl
 }
 
 // runFor executes a tape until it fails with the wanted class, at most tr.tries times.
@@ -59,7 +79,9 @@ func (tr *tapeRunner) run(tape []uint64) childResult {
 	os.WriteFile(name, b, 0o644)
 	defer os.Remove(name)
 	args := []string{"exec", "-prop", tr.prop, "-tier", tr.tier, "-tape", name, "-known", tr.known}
-	return execChild(tr.exe, append(args, preludeArgs(tr.seed, tr.prelude)...), 120*time.Second+time.Duration(len(tr.prelude))*20*time.Millisecond)
+	pa, cl := preludeArgs(tr.seed, tr.prelude)
+	defer cl()
+	return execChild(tr.exe, append(args, pa...), 120*time.Second+time.Duration(len(tr.prelude))*20*time.Millisecond)
 }
 
 func classOf(prop string, cr childResult) string {
@@ -233,7 +255,9 @@ func handleViolation(exe string, sc *scenario, tier string, seed, index uint64, 
 	execWith := func(pre []uint64) childResult {
 		args := []string{"exec", "-prop", sc.Prop, "-tier", tier, "-seed", fmt.Sprint(seed), "-i", fmt.Sprint(index), "-known", known}
 		if len(pre) > 0 {
-			args = append(args, "-prelude", joinIdx(pre))
+			v, cl := preludeValue(pre)
+			defer cl()
+			args = append(args, "-prelude", v)
 		}
 		return execChild(exe, args, 300*time.Second+time.Duration(len(pre))*20*time.Millisecond)
 	}
@@ -395,11 +419,15 @@ func replayOnce(exe, path, known string) childResult {
 	to := 300*time.Second + time.Duration(len(rf.Prelude))*20*time.Millisecond
 	if len(rf.Tape) > 0 {
 		args := []string{"exec", "-prop", rf.Property, "-tier", rf.Tier, "-tape", path, "-known", known}
-		return execChild(exe, append(args, preludeArgs(rf.Seed, rf.Prelude)...), to)
+		pa, cl := preludeArgs(rf.Seed, rf.Prelude)
+		defer cl()
+		return execChild(exe, append(args, pa...), to)
 	}
 	args := []string{"exec", "-prop", rf.Property, "-tier", rf.Tier, "-seed", fmt.Sprint(rf.Seed), "-i", fmt.Sprint(rf.Index), "-known", known}
 	if len(rf.Prelude) > 0 {
-		args = append(args, "-prelude", joinIdx(rf.Prelude))
+		v, cl := preludeValue(rf.Prelude)
+		defer cl()
+		args = append(args, "-prelude", v)
 	}
 	return execChild(exe, args, to)
 }
